@@ -17,7 +17,8 @@ ASSUMPTIONS = ['float results may exceed a bound by 1e-9 * max(1, |min|, |max|) 
                'Part 2 compares with the real decoder output (checked in Part 1) and with the declared defaults / passed dict']
 MIN_OBS = {'decodes': 50000, 'declarations': 200, 'monotone_pairs': 50000, 'hp_sessions': 30, 'hp_observations': 500,
            'declarations_with_zero_default': 4, 'decodes_with_repeated_letters': 2000,
-           'session_dnas_with_repeated_letters': 1}
+           'session_dnas_with_repeated_letters': 1, 'hp_sessions_reusing_argument_objects': 10,
+           'hp_sessions_with_report_options': 4}
 EXHAUSTIVE_NOTE = 'Part 1 enumerates every letter of the alphabet at every gene position for every generated declaration'
 ALPHABET = r'()*+,-./0123456789:;<=>?@ABCDEFGHIJKLMNOPQRSTUVWXYZ[\]^_`abcdefghijklmnopqrstuvw'
 
@@ -138,7 +139,8 @@ def _part2(job):
     nroutes = job['nroutes']
     syms = ['BTC-USDT', 'ETH-USDT'][:nroutes]
     routes, expect = [], {}
-    explicit = {'a': 7, 'b': 0.25, 'zz': 3} if job['explicit'] else None
+    explicit = {'a': 7, 'b': rng.choice([0.25, 0.12345, -0.375, 1 / 3, 2.0000001]), 'zz': 3} if job['explicit'] else None
+    explicit_snapshot = dict(explicit) if explicit is not None else None
     for i, sym in enumerate(syms):
         has_defaults = job['defaults'][i]
         has_dna = job['dna'][i]
@@ -178,7 +180,7 @@ def _part2(job):
         routes.append({'symbol': sym, 'timeframe': '5m', 'script': script})
         real_decl = [dict(h, type=int if h['type'] == 'int' else float) for h in decl]
         if explicit is not None:
-            expect[sym] = explicit
+            expect[sym] = explicit_snapshot
         elif dna:
             expect[sym] = _ref_decode(real_decl, dna)
             if len(set(dna)) < len(dna):
@@ -193,12 +195,37 @@ def _part2(job):
                        'futures_leverage_mode': 'cross'},
             'routes': routes, 'data_routes': [], 'warmup': 0, 'fast': job['fast'], 'hyperparameters': explicit,
             'candles': {s: gen.random_spec(rng, 300, 'walk') for s in syms}}
-    out = session.run_session(spec, snapshots=False)
-    cnt['hp_sessions'] = 1
-    if out['error']:
-        viol.append({'key': 'hp_session_raised:' + out['error']['type'], 'msg': out['error']['msg'], 'witness': {'tb': out['error']['tb']}})
+    events = []
+    if explicit is not None:
+        # the same argument objects serve two sessions (what an optimiser does with one decoded candidate: a training and a
+        # testing run); the first one may ask for the report options - nothing of that may change what the strategy sees
+        allc = session.build_candles(spec)
+        args = session.build_args(spec, allc)
+        opts = rng.choice([{}, {'generate_hyperparameters': True}, {'generate_hyperparameters': True, 'generate_equity_curve': True}])
+        for n_run, o_ in enumerate((opts, {})):
+            out = session.run_session(dict(spec, options=o_), snapshots=False, candles=allc, args=args)
+            cnt['hp_sessions'] = cnt.get('hp_sessions', 0) + 1
+            cnt['hp_sessions_reusing_argument_objects'] = cnt.get('hp_sessions_reusing_argument_objects', 0) + n_run
+            if o_:
+                cnt['hp_sessions_with_report_options'] = cnt.get('hp_sessions_with_report_options', 0) + 1
+            if out['error']:
+                viol.append({'key': 'hp_session_raised:' + out['error']['type'], 'msg': out['error']['msg'],
+                             'witness': {'tb': out['error']['tb'], 'options': o_}})
+            events += out['events']
+            if args['hyperparameters'] != explicit_snapshot or any(
+                    type(args['hyperparameters'].get(k_)) is not type(v_) for k_, v_ in explicit_snapshot.items()):
+                viol.append({'key': 'explicit_hyperparameters_modified',
+                             'msg': f'the hyperparameters dict handed to research.backtest is {args["hyperparameters"]} after the '
+                                    f'session (options {o_}), it was {explicit_snapshot}', 'witness': {'job': job, 'options': o_}})
+                break
+    else:
+        out = session.run_session(spec, snapshots=False)
+        cnt['hp_sessions'] = 1
+        if out['error']:
+            viol.append({'key': 'hp_session_raised:' + out['error']['type'], 'msg': out['error']['msg'], 'witness': {'tb': out['error']['tb']}})
+        events = out['events']
     seen = {}
-    for e in out['events']:
+    for e in events:
         if e['k'] == 'hook' and e['hook'] == 'before' and 'hp' in e:
             cnt['hp_observations'] = cnt.get('hp_observations', 0) + 1
             sym = e['symbol']
